@@ -87,12 +87,16 @@ def run(tier):
     if tier == "thorough":
         cases += e1_cases(2, tier)
         cases.append(engine.tree_case(("psym", 0, 3)))
+    else:
+        cases.append(engine.tree_case(("psym", 0, 2)))
     cases.append(engine.tree_case(("psym", 0, 0)))
     outs = engine.run_cases(cases, per_condition_timeout=300 if tier == "quick" else 1500)
     run.add(engine.to_results(cases, outs))
     # ---- E2
     core = ["\\", "\\\\", "\\\\\\", "|", "||", "(", ")", "()", "[", "]", "[]", "$", "$$", "^", "?", "??", "*", "+", "{", "}", ".", "..", "/", "a$", "^a", "a|b",
-            "(a)", "[a]", "a?", "a..b?", "\n", "a\nb", "\\'", "$^"]
+            "(a)", "[a]", "a?", "a..b?", "\n", "a\nb", "\\'", "$^",
+            # several lines: a special character on a later / on the first line (line-sensitive scans of the argument)
+            "\n(", "a\n.", ".\na", "\n\\"]
     rest = [x for x in POOL if x not in core]
     pool = POOL + [x for x in core if x not in POOL] if tier == "thorough" else core + rest[common.SEED % 4::4]
     run.add(common.run_tasks(__name__, [("task_e2", (s, tier)) for s in pool]))
@@ -101,7 +105,7 @@ def run(tier):
     run.info = {"crosshair_harnesses": len(cases), "crosshair_paths_explored": paths}
     run.bounds = {"E1": "%d harnesses: the str argument symbolic with |s| = 1 (all %d positions%s), |s| <= %s for Pregex(s); every code point 0..0x10FFFF per character" %
                   (len(cases), len(positions(("sym", 0, 1))), "; |s| = 2 as well" if tier == "thorough" else "", "3" if tier == "thorough" else "1"),
-                  "E2": "%d boundary literals (a fixed core: every metacharacter alone and doubled, backslash runs of length 1-3, newline; plus a seed-rotated part; metacharacters at both ends, backslash runs, newline, quotes, NUL, non-BMP) in every position; texts up to |s|+2 (<= 5)" % len(pool)}
+                  "E2": "%d boundary literals (a fixed core: every metacharacter alone and doubled, backslash runs of length 1-3, newline, two-line literals with a special character on either line; plus a seed-rotated part; metacharacters at both ends, backslash runs, newline, quotes, NUL, non-BMP) in every position; texts up to |s|+2 (<= 5)" % len(pool)}
     run.assumptions = ["reference: the string contributes a backslash-escaped copy of itself (metacharacters \\.^$*+?{}[]|() escaped, nothing else), every operand parenthesised (vlib/dsl.py)",
                        "CrossHair's model of re (relib) is used for pregex's internal regexes on symbolic text; guarded by per-path concolic self-validation "
                        "(concrete re-run of the real code on a model of each path) and by replay of every counterexample",
